@@ -2,7 +2,8 @@
 // crontabs are reference-counted).  Drives the REAL scheduleManager (public Add/Remove,
 // observed through the add-only verif export VerifC11Snapshot) shared by REAL
 // ScheduleBindingsControllers (EnableScheduleBindings, DisableScheduleBindings,
-// CanHandleEvent, HandleEvent).  The cron scheduler is never started: a firing is the
+// CanHandleEvent, HandleEvent).  The cron scheduler is started only by the operation SmStart
+// (streams start / operator-start, crontabs due months from now); it never fires by the clock: a firing is the
 // direct call of every controller's CanHandleEvent/HandleEvent with the crontab, and which
 // crontab each registered cron entry sends is read by running the entry's job once.
 //
@@ -72,7 +73,7 @@ type Binding struct {
 }
 
 type Op struct {
-	Kind string `json:"kind"` // Add Remove Enable Disable Fire Tick TickAll Start Drain Stop
+	Kind string `json:"kind"` // Add Remove Enable Disable Fire Tick TickAll Start Drain Stop SmStart (= ScheduleManager.Start())
 	C    int    `json:"c"`    // Add/Remove/Fire: index into Input.Strings
 	I    int    `json:"i,omitempty"`
 	H    int    `json:"h"`
@@ -177,6 +178,24 @@ func parsable(s string) (ok bool) {
 	return err == nil
 }
 
+// farFromDue: none of the parsable strings is due within the next 30 days
+func farFromDue(strs []string) bool {
+	now := time.Now()
+	for _, s := range strs {
+		if !parsable(s) {
+			continue
+		}
+		sched, err := cron.Parse(s)
+		if err != nil {
+			continue
+		}
+		if next := sched.Next(now); !next.IsZero() && next.Sub(now) < 30*24*time.Hour {
+			return false
+		}
+	}
+	return true
+}
+
 func name(prefix string, n int) string {
 	if n == 0 {
 		return ""
@@ -238,6 +257,7 @@ type smAPI interface {
 	Remove(smtypes.ScheduleEntry)
 	Ch() chan string
 	Stop()
+	Start()
 	VerifC11Snapshot() ([]schedulemanager.VerifC11Entry, []schedulemanager.VerifC11CronEntry)
 }
 
@@ -341,10 +361,33 @@ func (r *rig) run(in Input) Observation {
 		return smtypes.ScheduleEntry{Crontab: in.str(c), Id: r.idStr(i)}
 	}
 	sm := r.sm
-	cr := cronOf(sm)
 	ch := sm.Ch()
 	js := newJobSet()
 	stopped := false
+	// started: sm.Start() was called (operation SmStart).  The cron entries are always those of
+	// the runner the manager holds NOW (looked up at every use: what fires is what that runner
+	// has).  A running runner keeps its entries sorted by next activation time: they are listed
+	// by entry id, which is the order of registration.
+	started := false
+	cronEntries := func() []cron.Entry {
+		es := cronOf(sm).Entries()
+		if started {
+			sort.SliceStable(es, func(i, j int) bool { return es[i].ID < es[j].ID })
+		}
+		return es
+	}
+	verifSnapshot := func() ([]schedulemanager.VerifC11Entry, []schedulemanager.VerifC11CronEntry) {
+		ents, ce := sm.VerifC11Snapshot()
+		if started {
+			sort.SliceStable(ce, func(i, j int) bool { return ce[i].EntryID < ce[j].EntryID })
+		}
+		return ents, ce
+	}
+	defer func() {
+		if started && !stopped {
+			sm.Stop() // the runner of this case is stopped (by the goroutine of Start())
+		}
+	}()
 	infosOf := func(infos []controller.BindingExecutionInfo) []InfoObs {
 		res := []InfoObs{}
 		for _, info := range infos {
@@ -407,12 +450,12 @@ func (r *rig) run(in Input) Observation {
 		}
 	}
 	snapshot := func() ([]schedulemanager.VerifC11Entry, []cronRow) {
-		for _, e := range cr.Entries() {
+		for _, e := range cronEntries() {
 			jobs[int(e.ID)] = e.Job
 		}
 		if idle() && !stopped {
 			// every entry's job is run once and what it sends is received right away
-			ents, ce := sm.VerifC11Snapshot()
+			ents, ce := verifSnapshot()
 			rows := []cronRow{}
 			for _, e := range ce {
 				fires[e.EntryID] = e.Fires
@@ -432,7 +475,7 @@ func (r *rig) run(in Input) Observation {
 		}
 		sort.Slice(ents, func(i, j int) bool { return ents[i].Crontab < ents[j].Crontab })
 		rows := []cronRow{}
-		for _, e := range cr.Entries() {
+		for _, e := range cronEntries() {
 			id := int(e.ID)
 			if f, ok := fires[id]; ok {
 				rows = append(rows, cronRow{id: id, fires: f, resolved: true})
@@ -461,7 +504,7 @@ func (r *rig) run(in Input) Observation {
 	// each sends is received at once and dispatched
 	tick := func(st *rawStep, only int) {
 		if !stopped {
-			_, ce := sm.VerifC11Snapshot()
+			_, ce := verifSnapshot()
 			for pos, e := range ce {
 				if only < 0 || only == pos {
 					dispatch(e.Fires, st.fire)
@@ -470,7 +513,7 @@ func (r *rig) run(in Input) Observation {
 			}
 			return
 		}
-		for pos, e := range cr.Entries() {
+		for pos, e := range cronEntries() {
 			if only < 0 || only == pos {
 				if s, ok := fireAlone(e.Job); ok {
 					dispatch(s, st.fire)
@@ -508,7 +551,7 @@ func (r *rig) run(in Input) Observation {
 		case "Tick":
 			// (the consumer first catches up with firings that still wait;) the job of the n-th
 			// registered cron entry runs; what it sends is dispatched
-			if op.N >= 0 && op.N < len(cr.Entries()) {
+			if op.N >= 0 && op.N < len(cronEntries()) {
 				st.fire = blank()
 				if !idle() {
 					catchUp(&st)
@@ -523,7 +566,7 @@ func (r *rig) run(in Input) Observation {
 			tick(&st, -1)
 		case "Start":
 			// the jobs fire at the same instant: each in a goroutine of its own, nobody receives
-			ents := cr.Entries()
+			ents := cronEntries()
 			for _, n := range op.Ns {
 				if n >= 0 && n < len(ents) {
 					js.start(ents[n].Job)
@@ -536,6 +579,17 @@ func (r *rig) run(in Input) Observation {
 		case "Stop":
 			sm.Stop()
 			stopped = true
+			if started {
+				// the goroutine of Start() stops the runner; until it has, Entries() must not be asked
+				waitCronStopped(cronOf(sm), 2*time.Second)
+			}
+		case "SmStart":
+			// ScheduleManager.Start(), once per case, and only when no crontab of the case is due
+			// soon (the scheduler must never fire by the clock while the case runs)
+			if !started && !stopped && farFromDue(in.Strings) {
+				sm.Start()
+				started = true
+			}
 		}
 		for h := range st.fire {
 			stable(&st.fire[h])
@@ -671,6 +725,8 @@ func coqOp(o Op) string {
 		return "ODrain"
 	case "Stop":
 		return "OStop"
+	case "SmStart":
+		return "OSmStart"
 	}
 	return fmt.Sprintf("OFire %s", sname(o.C))
 }
@@ -866,6 +922,7 @@ func Render(in Input, obs *Observation, crash string) core.Case {
 	c.Tags = append(c.Tags, fmt.Sprintf("max-cron-entries:%d", maxCron))
 	c.Tags = append(c.Tags, concurrencyTags(in, steps)...)
 	c.Tags = append(c.Tags, operatorTags(in, steps)...)
+	c.Tags = append(c.Tags, startTags(in, steps)...)
 	if hadInfos {
 		c.Tags = append(c.Tags, "firing-with-tasks")
 	}
@@ -975,9 +1032,109 @@ func concurrencyTags(in Input, steps []Obs) []string {
 	return res
 }
 
+// startTags: what a case about ScheduleManager.Start() contains
+func startTags(in Input, steps []Obs) []string {
+	at := -1
+	for k, o := range in.Ops {
+		if o.Kind == "SmStart" {
+			at = k
+			break
+		}
+	}
+	if at < 0 || at >= len(steps) {
+		return nil
+	}
+	tags := map[string]bool{"start:SmStart": true}
+	atStart := steps[at].Cron
+	n := len(atStart)
+	if n > 3 {
+		n = 3
+	}
+	tags[fmt.Sprintf("start:crontabs-registered-at-start:%d", n)] = true
+	for k, e := range atStart {
+		if e.ID != k+1 {
+			tags["start:entry-ids-have-a-gap-at-start"] = true
+		}
+	}
+	addsBefore := 0
+	for _, o := range in.Ops[:at] {
+		if o.Kind == "Add" || o.Kind == "Enable" {
+			addsBefore++
+		}
+	}
+	if addsBefore == 0 {
+		tags["start:nothing-added-before-start"] = true
+	}
+	gone := map[string]bool{} // strings whose entry of before Start() went afterwards
+	for k := at + 1; k < len(steps); k++ {
+		if in.Ops[k].Kind == "Tick" || in.Ops[k].Kind == "TickAll" {
+			tags["start:tick-after-start"] = true
+			if len(steps[k].Recv) > 0 {
+				tags["start:tick-after-start-delivers"] = true
+			}
+		}
+		now := map[int]bool{}
+		for _, e := range steps[k].Cron {
+			now[e.ID] = true
+			if gone[e.Sent] {
+				tags["start:crontab-of-before-start-registered-again-after-its-entry-went"] = true
+			}
+		}
+		for _, e := range atStart {
+			if !now[e.ID] {
+				gone[e.Sent] = true
+				tags["start:last-binding-of-a-crontab-registered-before-start-removed-after"] = true
+			}
+		}
+		if len(steps[k].Cron) > len(atStart) {
+			tags["start:crontab-added-after-start"] = true
+		}
+	}
+	var res []string
+	for t := range tags {
+		res = append(res, t)
+	}
+	sort.Strings(res)
+	return res
+}
+
 // ---- generation ----
 
-type gen struct{ r *core.Rng }
+type gen struct {
+	r    *core.Rng
+	fams [][]string // nil = families
+}
+
+func (g *gen) families() [][]string {
+	if g.fams != nil {
+		return g.fams
+	}
+	return families
+}
+
+// farFamilies: schedules that are due once a year, 3, 5, 7 and 9 months from now (cases that
+// start the real scheduler must never see it fire by the clock), each in several spellings;
+// the first of each family is the canonical single-spaced text
+func farFamilies() [][]string {
+	names := []string{"JAN", "FEB", "MAR", "APR", "MAY", "JUN", "JUL", "AUG", "SEP", "OCT", "NOV", "DEC"}
+	month := int(time.Now().Month())
+	var out [][]string
+	for k, off := range []int{3, 5, 7, 9} {
+		m := (month-1+off)%12 + 1
+		mi, h, d := 7*k, k+1, 1+2*k
+		out = append(out, []string{
+			fmt.Sprintf("%d %d %d %d *", mi, h, d, m),
+			fmt.Sprintf("%d  %d %d %d *", mi, h, d, m),
+			fmt.Sprintf(" %d %d %d %d *", mi, h, d, m),
+			fmt.Sprintf("%d %d %d %d * ", mi, h, d, m),
+			fmt.Sprintf("%d\t%d %d %d *", mi, h, d, m),
+			fmt.Sprintf("%d %d %d %s *", mi, h, d, names[m-1]),
+			fmt.Sprintf("%d %d %d %s *", mi, h, d, strings.ToLower(names[m-1])),
+			fmt.Sprintf("0 %d %d %d %d *", mi, h, d, m),
+		})
+	}
+	return out
+}
 
 // table draws the crontab strings of one case: nValid parsable ones first, then nInvalid
 // unparsable ones.  spell = the case is about spellings: at least two spellings of one
@@ -994,6 +1151,7 @@ func (g *gen) table(spell bool, nInvalid int) (tbl []string, nValid int, focus [
 		}
 		return p
 	}
+	families := g.families()
 	fam := perm(len(families))
 	main := map[string]bool{}
 	if !spell {
@@ -1166,6 +1324,149 @@ func (g *gen) coinciding(maxLen int) Input {
 	return in
 }
 
+// startHistory: WHERE ScheduleManager.Start() falls.  Before it: Add / Remove (mostly of a pair
+// that is registered: ids with gaps, crontabs added and removed again) / Enable / Disable in any
+// order; SmStart; after it: Remove (mostly of a registered pair: the last binding of a crontab
+// registered before Start goes) / Add / Disable / Enable and ticks through the cron entries the
+// manager holds then.  The crontabs are due months from now (farFamilies).
+func (g *gen) startHistory(maxLen int) Input {
+	fg := &gen{r: g.r, fams: farFamilies()}
+	in := Input{}
+	var focus []int
+	nInvalid := 0
+	if g.r.Chance(10) {
+		nInvalid = 1
+	}
+	var nValid int
+	in.Strings, nValid, focus = fg.table(g.r.Chance(30), nInvalid)
+	for len(in.Hooks) == 0 || g.totalBindings(in.Hooks) == 0 {
+		in.Hooks = g.hooks(false, 10, nValid, len(in.Strings), focus)
+	}
+	var reg [][2]int // pairs added by hand and not removed since
+	add := func() Op {
+		o := Op{Kind: "Add", C: g.r.Intn(len(in.Strings)), I: 1 + g.r.Intn(4)}
+		reg = append(reg, [2]int{o.C, o.I})
+		return o
+	}
+	remove := func() Op {
+		if len(reg) > 0 && g.r.Chance(85) {
+			k := g.r.Intn(len(reg))
+			p := reg[k]
+			reg = append(reg[:k:k], reg[k+1:]...)
+			return Op{Kind: "Remove", C: p[0], I: p[1]}
+		}
+		return Op{Kind: "Remove", C: g.r.Intn(len(in.Strings)), I: 1 + g.r.Intn(4)}
+	}
+	h := func() int { return g.r.Intn(len(in.Hooks)) }
+	for n := g.r.Intn(7); n > 0; n-- {
+		switch k := g.r.Intn(100); {
+		case k < 38:
+			in.Ops = append(in.Ops, add())
+		case k < 58:
+			in.Ops = append(in.Ops, remove())
+		case k < 82:
+			in.Ops = append(in.Ops, Op{Kind: "Enable", H: h()})
+		case k < 95:
+			in.Ops = append(in.Ops, Op{Kind: "Disable", H: h()})
+		default:
+			in.Ops = append(in.Ops, Op{Kind: "TickAll"})
+		}
+	}
+	in.Ops = append(in.Ops, Op{Kind: "SmStart"})
+	for n := 2 + g.r.Intn(maxLen-8); n > 0; n-- {
+		switch k := g.r.Intn(100); {
+		case k < 22:
+			in.Ops = append(in.Ops, remove())
+		case k < 37:
+			in.Ops = append(in.Ops, add())
+		case k < 50:
+			in.Ops = append(in.Ops, Op{Kind: "Disable", H: h()})
+		case k < 62:
+			in.Ops = append(in.Ops, Op{Kind: "Enable", H: h()})
+		case k < 82:
+			in.Ops = append(in.Ops, Op{Kind: "TickAll"})
+		case k < 90:
+			in.Ops = append(in.Ops, Op{Kind: "Tick", N: g.r.Intn(4)})
+		case k < 94:
+			in.Ops = append(in.Ops, Op{Kind: "Fire", C: g.r.Intn(len(in.Strings))})
+		default:
+			in.Ops = append(in.Ops, Op{Kind: "Start", Ns: g.positions()}, Op{Kind: "Drain"})
+		}
+	}
+	return in
+}
+
+// exhaustiveStart: every sequence of <= maxLen operations over two crontabs (due months from
+// now), one id added by hand each, a hook on the second one, Start() and a tick
+func exhaustiveStart(maxLen int) []Input {
+	ff := farFamilies()
+	tbl := []string{ff[0][0], ff[1][0]}
+	hook := []Binding{{Id: 11, Crontab: 1, Name: 101, Snaps: []int{}}}
+	alpha := []Op{
+		{Kind: "Add", C: 0, I: 1}, {Kind: "Remove", C: 0, I: 1}, {Kind: "Add", C: 1, I: 1}, {Kind: "Remove", C: 1, I: 1},
+		{Kind: "Enable", H: 0}, {Kind: "Disable", H: 0}, {Kind: "SmStart"}, {Kind: "TickAll"},
+	}
+	var out []Input
+	var rec func(ops []Op, started bool)
+	rec = func(ops []Op, started bool) {
+		if len(ops) > 0 && started {
+			out = append(out, Input{Strings: tbl, Hooks: [][]Binding{hook}, Ops: append([]Op{}, ops...)})
+		}
+		if len(ops) >= maxLen {
+			return
+		}
+		for _, o := range alpha {
+			if o.Kind == "SmStart" && started {
+				continue
+			}
+			rec(append(append([]Op{}, ops...), o), started || o.Kind == "SmStart")
+		}
+	}
+	rec(nil, false)
+	return out
+}
+
+// startCorpus: fixed cases about Start() (both classes)
+func startCorpus() []Input {
+	a := func(c, i int) Op { return Op{Kind: "Add", C: c, I: i} }
+	r := func(c, i int) Op { return Op{Kind: "Remove", C: c, I: i} }
+	en := func(h int) Op { return Op{Kind: "Enable", H: h} }
+	di := func(h int) Op { return Op{Kind: "Disable", H: h} }
+	tick := func(n int) Op { return Op{Kind: "Tick", N: n} }
+	all := Op{Kind: "TickAll"}
+	sst := Op{Kind: "SmStart"}
+	ff := farFamilies()
+	tbl := []string{ff[0][0], ff[1][0], ff[2][0], ff[0][1]}
+	hA := []Binding{{Id: 11, Crontab: 0, Name: 101, Snaps: []int{}}}
+	hB := []Binding{{Id: 21, Crontab: 1, Name: 201, Group: 5, AF: true, Snaps: []int{101}, Queue: 2}}
+	hC := []Binding{{Id: 31, Crontab: 2, Name: 301, Snaps: []int{}, Queue: 1}, {Id: 32, Crontab: 1, Name: 302, Snaps: []int{102}}}
+	opHooks := func(hooks ...[]Binding) [][]Binding {
+		var cp [][]Binding
+		for _, bs := range hooks {
+			cp = append(cp, append([]Binding{}, bs...))
+		}
+		return assignIds(cp)
+	}
+	return []Input{
+		// the example ex_start of C11_Properties.v: hook 0 enables and disables before Start(), hook 1 enables
+		// before it; after it hook 1 disables (nothing fires), enables again (one firing, one task)
+		{Strings: tbl, Hooks: [][]Binding{hA, hB}, Ops: []Op{en(0), di(0), en(1), sst, all, di(1), all, en(1), all, tick(0)}},
+		// by hand: ids with a gap before Start(); the last id of a crontab registered before Start() removed after it
+		{Strings: tbl, Hooks: [][]Binding{{}}, Ops: []Op{a(0, 1), r(0, 1), a(1, 1), a(2, 2), sst, all, r(1, 1), all, a(1, 1), all, r(2, 2), all, r(1, 1), all}},
+		// three crontabs registered before Start() in another order than their texts; removed one by one afterwards
+		{Strings: tbl, Hooks: [][]Binding{hA, hB, hC}, Ops: []Op{en(2), en(0), en(1), sst, all, di(0), all, di(2), all, tick(0), di(1), all, en(0), all}},
+		// two spellings of one schedule registered before Start(); one goes after it
+		{Strings: tbl, Hooks: [][]Binding{{}}, Ops: []Op{a(3, 1), a(0, 1), a(0, 2), sst, r(0, 1), all, r(0, 2), all, r(3, 1), all, a(0, 3), all}},
+		// Start() before anything is registered; Start() last
+		{Strings: tbl, Hooks: [][]Binding{hA, hB}, Ops: []Op{sst, en(0), en(1), all, di(0), all, en(0), all}},
+		{Strings: tbl, Hooks: [][]Binding{hA, hB}, Ops: []Op{en(0), en(1), di(0), all, sst}},
+		// the operator: the main queue's EnableScheduleBindings tasks are handled before ScheduleManager.Start()
+		{Via: "operator", Strings: tbl, Hooks: opHooks(hA, hB), Ops: []Op{en(0), di(0), en(1), sst, all, di(1), all, en(1), all, tick(0)}},
+		{Via: "operator", Strings: tbl, Hooks: opHooks(hA, hB, hC), Ops: []Op{en(0), en(1), en(2), sst, all, di(1), all, di(2), all, en(2), all, di(0), tick(0), tick(1)}},
+		{Via: "operator", Strings: tbl, Hooks: opHooks(hA, hC), Ops: []Op{a(0, 1), en(1), r(0, 1), sst, all, en(0), all, di(1), all, di(0), all}},
+	}
+}
+
 func (g *gen) totalBindings(hooks [][]Binding) int {
 	n := 0
 	for _, bs := range hooks {
@@ -1325,16 +1626,22 @@ func Gen(r *core.Rng, tier string) ([]core.In[Input], bool) {
 	for _, c := range operatorCorpus() {
 		ins = append(ins, core.In[Input]{Input: c, Stream: "corpus"})
 	}
+	for _, c := range startCorpus() {
+		ins = append(ins, core.In[Input]{Input: c, Stream: "corpus"})
+	}
 	g := &gen{r: r}
 	nRandom, maxLen := 500, 20
 	nOperator := 160
+	nStart, nOpStart := 120, 40
 	switch tier {
 	case "thorough":
 		nRandom, maxLen = 20000, 30
 		nOperator = 2000
+		nStart, nOpStart = 6000, 800
 	case "search":
 		nRandom = 3000
 		nOperator = 1000
+		nStart, nOpStart = 1500, 400
 	}
 	// the operator class has a generator of its own; its cases are spread over the list (the
 	// driver gives each worker a contiguous slice)
@@ -1392,6 +1699,26 @@ func Gen(r *core.Rng, tier string) ([]core.In[Input], bool) {
 			ins = append(ins, core.In[Input]{Input: in, Stream: "exhaustive-coinciding"})
 		}
 	}
+	// the cases about Start() have generators of their own (forked: the other streams draw what
+	// they drew before)
+	gst := &gen{r: r.Fork()}
+	gopst := &gen{r: r.Fork()}
+	for k := 0; k < nStart; k++ {
+		ins = append(ins, core.In[Input]{Input: gst.startHistory(maxLen), Stream: "start"})
+	}
+	for k := 0; k < nOpStart; k++ {
+		ins = append(ins, core.In[Input]{Input: gopst.operatorStartCase(maxLen), Stream: "operator-start"})
+	}
+	if tier == "thorough" {
+		for _, in := range exhaustiveStart(5) {
+			ins = append(ins, core.In[Input]{Input: in, Stream: "exhaustive-start"})
+		}
+	}
+	if tier == "search" {
+		for _, in := range exhaustiveStart(4) {
+			ins = append(ins, core.In[Input]{Input: in, Stream: "exhaustive-start"})
+		}
+	}
 	return spreadOperator(ins), false
 }
 
@@ -1433,7 +1760,7 @@ var Driver = core.Driver[Input, Observation]{
 			"every case has its own table of 3-5 crontab strings drawn from 5 schedules x 4-6 spellings (single-spaced, double spaces, tabs, leading/trailing blanks, other text for the same schedule, letter case); 45% of the cases contain at least two spellings of one schedule (tags spelling:*); parsability is asked of the real cron.Parse; " +
 			"operations Add/Remove of (crontab,id) over the table x 4 ids directly on the manager, Enable/Disable of a hook's bindings, Fire of a string (CanHandleEvent/HandleEvent of every controller), " +
 			"Tick n (the job of the n-th registered cron entry is run, what it sends on the channel is dispatched like hook.Manager.HandleScheduleEvent does), TickAll (every registered cron entry once); " +
-			"after each operation: Entries, the cron entries registered and the string each sends when its job is run (strings not in the table are appended to it); the scheduler is never started; " +
+			"after each operation: Entries, the cron entries registered and the string each sends when its job is run (strings not in the table are appended to it); the scheduler is started only in the streams start / operator-start (below); " +
 			"streams: corpus, random (length <=20, quick; 8% Start, 6% Drain, 1% Stop), coinciding (every fifth case: hooks enabled, 1-3 rounds of Start of >=2 jobs / operations meanwhile in 35% / Drain, TickAll, Tick or nothing; tags concurrent:*, stop:*), malformed (1-2 unparsable strings, some unparsable only because of whitespace such as '@hourly '; binding ids shared with the direct calls or duplicated), " +
 			"exhaustive (thorough: every sequence of <=5 operations over 10 operations on 2 spellings of one schedule x 2 ids and one hook); " +
 			"operator (case class COp, tags class:operator, operator:*): the REAL operator assembled around a fake cluster - 2-4 hook files (1-3 schedule bindings each, 65% of the bindings on one of two shared strings, now and then a hook without schedule bindings; " +
@@ -1442,6 +1769,9 @@ var Driver = core.Driver[Input, Observation]{
 			"Enable h = the EnableScheduleBindings task the real bootstrapMainQueue queued for hook h handled by the operator's real task handler, Disable h = HookController.DisableScheduleBindings, every string received from the schedule channel or handed over (Fire) given to the schedule event handler the operator registered (operator.go:163-191 -> hook.Manager.HandleScheduleEvent), the returned TASKS observed; " +
 			"histories: the hooks enabled in queue order with firings (Tick / TickAll / Fire) in between with probability 55% each, then disable / enable / raw Add, Remove (also of a binding's own pair) / Start+Drain / firings; " +
 			"exhaustive-operator (thorough: every sequence of <=5 operations over Enable 0,1,2 / Disable 0,1 / Tick 0 / TickAll on three hooks, two of them sharing a crontab, the second sharing its other crontab with the third), exhaustive-operator-same-names (the same with every binding unnamed: same name, same position, same crontab in hooks 0 and 1; namesakes with different settings in hook 1); " +
+			"start (120 quick; class CCtl) and operator-start (40 quick; class COp), tags start:*: WHERE ScheduleManager.Start() (operation SmStart -> OSmStart, the REAL Start(), at most once per case) falls - before it 0-6 operations Add / Remove (85% of a pair registered by hand: entry ids with gaps) / Enable / Disable (operator: the start-up EnableScheduleBindings tasks, a hook disabled and maybe enabled again, a pair added and removed by hand), after it Remove (mostly of a registered pair) / Add / Disable / Enable / TickAll / Tick / Fire / Start+Drain; " +
+			"the crontabs of these cases are due once a year, 3-9 months from the day of the run, in 8 spellings each (the running scheduler must never fire by the clock; Start() is not called should a crontab be due within 30 days); after Start() the cron entries are those of the runner the manager holds THEN, listed by entry id, and ticks run THEIR jobs; " +
+			"predicate P_start / P_op_start = P / P_op and: a TickAll while nothing waits delivers every parsable crontab with a registered id exactly once and no other string; exhaustive-start (thorough: every sequence of <=5 operations containing one SmStart over Add/Remove of 2 crontabs x 1 id, Enable/Disable of a hook on one of them, SmStart, TickAll); " +
 			"non-trivial = >=3 operations of >=2 kinds with a cron entry registered at some point; distinct = distinct input text"},
 	Gen: Gen, Run: Run, Render: Render, PerShard: 200, Workers: 8, CaseTimout: 10 * time.Second,
 	Extra: func() map[string]any {
